@@ -1,6 +1,7 @@
 import CoapVerif.Model.Gate
 import CoapVerif.Lemmas.Parse
 import CoapVerif.Props.C03
+import CoapVerif.Lemmas.QBlock
 /-
 C02 — arbitrary network input never breaks memory safety, liveness or the endpoint.
 
@@ -111,5 +112,183 @@ example : gate .udp [0x40, 0x01, 0x12, 0x34, 0xff] = .rst 0x1234 := by decide
 example : gate .udp [0x40, 0x01, 0x12, 0x34, 0xb1, 0x61] = .dispatch ⟨0, 1, 0x1234, [], [(11, [0x61])], []⟩ := by decide
 example : gate .udp [0x80, 0x01, 0x12, 0x34] = .drop := by decide
 example : gate .ws [0x00, 0x01, 0xff] = .bad := by decide
+
+/-! ## RFC 9177 (Q-Block): what a hostile peer can make the missing-blocks machinery do (Model/QBlock.lean)
+
+The client in the middle of a Q-Block1 transfer is handed a 4.08 response: `QBlock.q408Branch` is the branch of
+`coap_handle_response_send_block` from the Content-Format test on (payload = ANY byte string). -/
+open Coap.QBlock Coap.Block Coap.Spec.Block
+
+theorem q408Branch_cases (maxPay : Nat) (body : Bytes) (szx : Nat) (fmt : Option Nat) (isNon : Bool) (payload : Bytes) :
+    q408Branch maxPay body szx fmt isNon payload = R.ok ⟨[], .failBody⟩ ∨
+    q408Branch maxPay body szx fmt isNon payload = R.ok ⟨[], .done⟩ ∨
+    q408Branch maxPay body szx fmt isNon payload = R.ok ⟨[], .failCbor⟩ ∨
+    (payload ≠ [] ∧ q408Branch maxPay body szx fmt isNon payload = q408Loop body szx maxPay payload []) := by
+  unfold q408Branch
+  by_cases h1 : fmtOf fmt ≠ 272
+  · left; rw [if_pos h1]
+  · rw [if_neg h1]
+    by_cases h2 : (!isNon) = true
+    · right; left; rw [if_pos h2]
+    · rw [if_neg h2]; unfold q408
+      by_cases h3 : payload = []
+      · right; right; left; rw [if_pos h3]
+      · right; right; right; exact ⟨h3, by rw [if_neg h3]⟩
+
+/-- For EVERY payload (malformed, truncated, huge CBOR), every body, block size, MAX_PAYLOADS, Content-Format and message
+type: the parser never reads outside the payload (`R.oob` is what `*bp` behind the last byte would be), never fails
+silently, and terminates (total function; the loop is structural recursion on the MAX_PAYLOADS countdown). -/
+theorem q408_never_oob (maxPay : Nat) (body : Bytes) (szx : Nat) (fmt : Option Nat) (isNon : Bool) (payload : Bytes) :
+    ∃ o, q408Branch maxPay body szx fmt isNon payload = R.ok o := by
+  rcases q408Branch_cases maxPay body szx fmt isNon payload with h | h | h | ⟨_, h⟩
+  · exact ⟨_, h⟩
+  · exact ⟨_, h⟩
+  · exact ⟨_, h⟩
+  · obtain ⟨o, ho, _⟩ := q408Loop_spec body szx maxPay payload [] (by simp)
+    exact ⟨o, by rw [h, ho]⟩
+
+/-- Whatever the 4.08 says, every block the client sends again is a block OF ITS BODY: NUM below 2^20, its offset inside the
+body (no block beyond the end is ever sent — `coap_add_block` refuses it and the transfer is given up), the payload is
+exactly the non-empty slice of the body at that offset, the More bit is the one of that block. -/
+theorem q408_only_blocks_of_body (maxPay : Nat) (body : Bytes) (szx : Nat) (fmt : Option Nat) (isNon : Bool)
+    (payload : Bytes) (o : Q408Out) (h : q408Branch maxPay body szx fmt isNon payload = R.ok o) :
+    ∀ t, t ∈ o.sent →
+      t.num < 2 ^ 20 ∧ blockOffset t.num szx < body.length ∧
+      t.payload = (body.drop (blockOffset t.num szx)).take (2 ^ (szx + 4)) ∧ t.payload ≠ [] ∧
+      t.m = moreBit body.length t.num szx := by
+  rcases q408Branch_cases maxPay body szx fmt isNon payload with h' | h' | h' | ⟨_, h'⟩
+  · rw [h'] at h; cases h; simp
+  · rw [h'] at h; cases h; simp
+  · rw [h'] at h; cases h; simp
+  · obtain ⟨o', ho', h1, _⟩ := q408Loop_spec body szx maxPay payload [] (by simp)
+    rw [h', ho'] at h; cases h
+    exact h1
+
+/-- No amplification: one 4.08 makes the client send at most MAX_PAYLOADS messages, and at most one per payload byte. -/
+theorem q408_bounded (maxPay : Nat) (body : Bytes) (szx : Nat) (fmt : Option Nat) (isNon : Bool)
+    (payload : Bytes) (o : Q408Out) (h : q408Branch maxPay body szx fmt isNon payload = R.ok o) :
+    o.sent.length ≤ maxPay ∧ o.sent.length ≤ payload.length := by
+  rcases q408Branch_cases maxPay body szx fmt isNon payload with h' | h' | h' | ⟨_, h'⟩
+  · rw [h'] at h; cases h; simp
+  · rw [h'] at h; cases h; simp
+  · rw [h'] at h; cases h; simp
+  · obtain ⟨o', ho', _, h2, h3⟩ := q408Loop_spec body szx maxPay payload [] (by simp)
+    rw [h', ho'] at h; cases h
+    simp at h2 h3; exact ⟨h2, h3⟩
+
+/-- The server's encoder (`add_408_block`, after fix 5bf13ec) and the client's parser agree: for EVERY list of at most
+MAX_PAYLOADS blocks of the body the payload the server builds makes the client send exactly those blocks, in that
+order, and carry on (`return 1`). -/
+theorem q408_roundtrip (maxPay : Nat) (body : Bytes) (szx : Nat) (ns : List Nat) (bs : Bytes)
+    (hne : ns ≠ []) (henc : encode408 ns = some bs) (hlen : ns.length ≤ maxPay)
+    (hin : ∀ n, n ∈ ns → blockOffset n szx < body.length) :
+    q408Branch maxPay body szx (some 272) true bs = R.ok ⟨ns.map (txOf body szx), .done⟩ := by
+  have hbs : bs ≠ [] := by
+    intro hb
+    rcases ns with _ | ⟨n, rest⟩
+    · exact hne rfl
+    · unfold encode408 at henc
+      cases hx : add408Block n with
+      | none => rw [hx] at henc; simp at henc
+      | some x =>
+        cases hy : encode408 rest with
+        | none => rw [hx, hy] at henc; simp at henc
+        | some y =>
+          rw [hx, hy] at henc
+          obtain ⟨_, _, b0, t, hxe, _⟩ := derive_add408 n x y hx
+          have : bs = x ++ y := by simpa using henc.symm
+          rw [this, hxe] at hb; simp at hb
+  have := q408Loop_encode body szx ns maxPay bs [] henc hlen hin
+  have hf : fmtOf (some 272) = 272 := by decide
+  simp only [q408Branch, q408, hbs, hf]
+  simpa using this
+
+/-- the encoder accepts exactly the block numbers a Block option can carry -/
+theorem add408Block_some_iff (n : Nat) : (∃ x, add408Block n = some x) ↔ n < 2 ^ 20 := by
+  unfold add408Block
+  constructor
+  · rintro ⟨x, h⟩
+    by_cases h0 : n ≥ 2 ^ 20
+    · rw [if_pos h0] at h; simp at h
+    · omega
+  · intro h
+    rw [if_neg (by omega)]
+    split
+    · exact ⟨_, rfl⟩
+    · split
+      · exact ⟨_, rfl⟩
+      · split <;> exact ⟨_, rfl⟩
+
+/-- The received-blocks bookkeeping behind the missing-blocks requests (client: `coap_request_missing_q_block2`, server:
+the Q-Block1 4.08 of `coap_block_check_lg_srcv_timeouts`; same shape as `C09.rblock_represents`): after ANY sequence of
+insertions into `rec_blocks` (out of order, duplicates, refused ones) the walk over the ranges asks for a block number
+exactly if it was NOT recorded and lies below a recorded one — never a recorded block, never one above the highest
+recorded block; hence if every recorded block is a block of the body (below `total`), so is every block asked for; and the
+running `block` ends as the highest recorded number. -/
+theorem qblock_missing_represents (cap : Nat) (ns : List Nat) :
+    let st := ns.foldl (insertStep cap) ([], [])
+    (∀ g, g ∈ (gapLoop st.1 none []).2 ↔ (g ∉ st.2 ∧ ∃ k, k ∈ st.2 ∧ g < k)) ∧
+    (∀ total, (∀ k, k ∈ st.2 → k < total) → ∀ g, g ∈ (gapLoop st.1 none []).2 → g < total) ∧
+    (st.1 ≠ [] → ∃ r, st.1.getLast? = some r ∧ (gapLoop st.1 none []).1 = some r.2 ∧ r.2 ∈ st.2) := by
+  intro st
+  obtain ⟨w, _, c⟩ := insertAll_inv cap ns ([], []) trivial (Nat.zero_le _) (by intro k; simp [Covers])
+  obtain ⟨g1, g2⟩ := gapLoop_spec st.1 0 none [] w (Nat.le_refl 0)
+  have hmain : ∀ g, g ∈ (gapLoop st.1 none []).2 ↔ (g ∉ st.2 ∧ ∃ k, k ∈ st.2 ∧ g < k) := by
+    intro g
+    rw [g1 g]
+    constructor
+    · rintro (h | ⟨_, h2, r, hr, hlt⟩)
+      · simp at h
+      · refine ⟨fun hm => h2 ((c g).mpr hm), r.1, (c r.1).mp ⟨r, hr, Nat.le_refl _, ?_⟩, hlt⟩
+        -- r.1 ≤ r.2 from well-formedness
+        have : ∀ (rs : Ranges) (lo : Nat), WfFrom lo rs → ∀ r, r ∈ rs → r.1 ≤ r.2 := by
+          intro rs
+          induction rs with
+          | nil => intro lo _ r hr; simp at hr
+          | cons x xs ih =>
+            intro lo hw r hr
+            obtain ⟨_, hbe, hw'⟩ := hw
+            rcases List.mem_cons.mp hr with h | h
+            · subst h; exact hbe
+            · exact ih _ hw' r h
+        exact this st.1 0 w r hr
+    · rintro ⟨hn, k, hk, hlt⟩
+      obtain ⟨r, hr, h1, h2⟩ := (c k).mpr hk
+      refine Or.inr ⟨Nat.zero_le _, fun hc => hn ((c g).mp hc), ?_⟩
+      by_cases hgr : g < r.1
+      · exact ⟨r, hr, hgr⟩
+      · exact absurd ((c g).mp ⟨r, hr, by omega, by omega⟩) hn
+  refine ⟨hmain, ?_, ?_⟩
+  · intro total ht g hg
+    obtain ⟨_, k, hk, hlt⟩ := (hmain g).mp hg
+    have := ht k hk; omega
+  · intro hne
+    obtain ⟨r, hr1, hr2⟩ := g2 hne
+    refine ⟨r, hr1, hr2, (c r.2).mp ⟨r, List.mem_of_getLast? hr1, ?_, Nat.le_refl _⟩⟩
+    have : ∀ (rs : Ranges) (lo : Nat), WfFrom lo rs → ∀ r, r ∈ rs → r.1 ≤ r.2 := by
+      intro rs
+      induction rs with
+      | nil => intro lo _ r hr; simp at hr
+      | cons x xs ih =>
+        intro lo hw r hr
+        obtain ⟨_, hbe, hw'⟩ := hw
+        rcases List.mem_cons.mp hr with h | h
+        · subst h; exact hbe
+        · exact ih _ hw' r h
+    exact this st.1 0 w r (List.mem_of_getLast? hr1)
+
+/-- non-vacuity of the hypotheses above and concrete witnesses -/
+example : q408Branch 10 (List.replicate 100 7) 0 (some 272) true [0x01, 0x02] =
+    R.ok ⟨[txOf (List.replicate 100 7) 0 1, txOf (List.replicate 100 7) 0 2], .done⟩ := by decide
+example : encode408 [1, 2] = some [0x01, 0x02] ∧ [1, 2] ≠ [] ∧ [1, 2].length ≤ 10 ∧
+    ∀ n, n ∈ [1, 2] → blockOffset n 0 < (List.replicate 100 (7 : UInt8)).length := by decide
+/-- a block beyond the body: nothing is sent, the transfer is given up (5.00) -/
+example : q408Branch 10 (List.replicate 100 7) 0 (some 272) true [0x07] = R.ok ⟨[], .failBody⟩ := by decide
+/-- an initial byte announcing four bytes with three present: refused, not read (was a one-byte overread, fix f2fc9d2) -/
+example : q408Branch 10 (List.replicate 100 7) 0 (some 272) true [0x1a, 0, 0, 0] = R.ok ⟨[], .failCbor⟩ := by decide
+example : add408Block 65536 = some [26, 0, 1, 0, 0] := by decide
+example : (gapLoop [(0, 2), (5, 6), (9, 9)] none []) = (some 9, [3, 4, 7, 8]) := by decide
+example : missing408 [(3, 4)] (some 6) = [0, 1, 2, 5, 6] := by decide
+example : allInForPayloadSet 10 [(0, 9), (12, 12)] 0 = true ∧ anyNextPayloadSet 10 [(0, 9), (12, 12)] 1 = true := by decide
 
 end Coap.C02
